@@ -217,7 +217,7 @@ def body(case):
         if spec is not None:
             with warnings.catch_warnings():
                 warnings.simplefilter("ignore")
-                R = ns.r.Rule.from_spec(copy.deepcopy(spec))
+                R = ns.r.Rule.from_spec(SP.recycled(spec, ns.r.Rule.from_spec) or copy.deepcopy(spec))
         else:
             with build.sharing():  # path arguments with the same parts derive from one base object
                 R = build.build_rule(rule)
@@ -276,7 +276,7 @@ def body_escaped(case):
     try:
         with warnings.catch_warnings():
             warnings.simplefilter("ignore")
-            R = ns.r.Rule.from_spec(copy.deepcopy(spec))
+            R = ns.r.Rule.from_spec(SP.recycled(spec, ns.r.Rule.from_spec) or copy.deepcopy(spec))
         Rlit = build.build_rule(rule)
     except Exception as e:
         out.exc("build-escaped", e)
